@@ -85,7 +85,7 @@ TEXTS = {
                      'placeholder shapes, identity above the cut and beyond the height. Two known findings (atoms below the cut, str key at the cut).',
                 note='CPython ast as oracle.'),
     'C12': dict(category='other', engine='pyvc+bounded', technique=_PYVC + ' for termination measures; ' + _BOUNDED + ' for the growth law',
-                text='Proved: termination measures of the fitting predicates, of best_layout (stack_size decreases on every iteration, given '
+                text='Proved: termination measures of the fitting predicates, of normalisation (rank of the document), of best_layout (stack_size decreases on every iteration, given '
                      'size-bounded contextual functions) and of str_to_lines (all strings, all max_len > 0). Bounded: interpreter-step counts (sys.monitoring) on 23 input families at n,2n,4n,8n '
                      'with growth factor <= 6. Known finding: commented dict nesting is exponential.',
                 note=_ENC + 'a contract cannot state a complexity class: the growth law is monitored only.'),
@@ -102,7 +102,8 @@ TEXTS = {
                 text='Proved for EVERY exception class (symbolic class with subclass predicates) and every printer: a failure derived from '
                      'Exception is contained (repr, exactly one warning, at most two attempts), only non-Exception classes and the '
                      'invalid-result error escape, with and without trailing comment, signature-mismatch path included. Bounded: every '
-                     'single fault position x 6 classes x wraps on all trees of <= 4 (5) invocations: siblings/ancestors unchanged.',
+                     'single fault position x 6 classes x wraps on all trees of <= 4 (5) invocations, random pairs, and 6 / 8 / all-but-one failing '
+                     'invocations in one call on a wide and on a deep structure: siblings/ancestors unchanged, one warning per failure.',
                 note=_ENC + 'the warning text and that ancestors are unaffected are bounded only; _warn_about_bad_printer is a trusted straight-line contract.'),
     'C15': dict(category='proof', engine='pyvc+bounded', technique=_PYVC + '; frame obligations decided by effect analysis over the ast of the real source; ' + _BOUNDED,
                 text='Proved for all inputs from the source of prettyprinter.py (family registry, 322 obligations) over an abstract view of the three '
